@@ -408,12 +408,40 @@ class Evaluator:
             return self.call(e, env)
         if isinstance(e, ast.JoinedStr):
             return "<fstring>"
-        if isinstance(e, ast.ListComp) and len(e.generators) == 1 and not e.generators[0].is_async:
+        if isinstance(e, ast.DictComp) and len(e.generators) == 1 and not e.generators[0].is_async:
             g = e.generators[0]
             it = self.eval(g.iter, env)
             if it is None or isinstance(it, (int, float, bool)):
                 raise Raised("TypeError")
-            if isinstance(it, str):
+            if isinstance(it, dict):
+                it = list(it)
+            if not isinstance(it, (list, tuple)):
+                raise Unsupported("dict comprehension over non-list")
+            out = {}
+            for item in it:
+                env2 = dict(env)
+                self.assign(g.target, item, env2)
+                if all(self.truth(self.eval(c, env2)) for c in g.ifs):
+                    k = self.eval(e.key, env2)
+                    v = self.eval(e.value, env2)
+                    if isinstance(k, AStr):
+                        kc = k.concrete()
+                        if kc is None:
+                            raise Unsupported("abstract string as dict key")
+                        k = kc
+                    for kk in list(out):
+                        if self.eq(kk, k):
+                            out[kk] = v
+                            break
+                    else:
+                        out[k] = v
+            return out
+        if isinstance(e, (ast.ListComp, ast.GeneratorExp)) and len(e.generators) == 1 and not e.generators[0].is_async:
+            g = e.generators[0]
+            it = self.eval(g.iter, env)
+            if it is None or isinstance(it, (int, float, bool)):
+                raise Raised("TypeError")
+            if isinstance(it, (str, dict)):
                 it = list(it)
             if not isinstance(it, (list, tuple)):
                 raise Unsupported("comprehension over non-list")
